@@ -154,7 +154,7 @@ def _run_case(case):
     from harness import sysrun, tracer
     cfg, meta = build_case(case)
     # event ids in the tracer are resolved from (type, start tick in REAL seconds, ident)
-    tmeta = [dict(m, t0=int(round(m["real_t0"])), t1=int(round(m["real_t1"]))) for m in meta]
+    tmeta = [dict(m, t0=int(round(m["real_t0"])), t1=int(round(m["real_t1"])), t0f=float(m["real_t0"])) for m in meta]
     env = tracer.TableEnv(_r.Random(case["seed"]), serendipity=False)
     np.random.seed(case["seed"] % (2 ** 31))
     sch = sysrun.Schedule("random", rng=_r.Random(case["seed"])) if case.get("random_schedule") else sysrun.Schedule("fifo")
